@@ -94,6 +94,14 @@ CLAIMED = {
             "equality after reseeding), the draw order on recording generators, and whole runs differentially (n_jobs 1/2/4, verbose, folder, ctor seeds; RR and RL).",
             "Trusted: Lean kernel; determinism of numpy PCG64 and of sklearn/xgboost/scipy given their random_state; joblib workers as pure evaluators.",
             "DESIGN.md §4 C01"),
+    "C04": ("Lean 4 proof (load(save f s) = s under serialiser contracts when the folder's series are a prefix; SQLite load-after-save; folder = returned state) + serialiser contracts validated bit-for-bit on the real libraries and deep comparison of restored calibrators",
+            "Proved in Lean: with faithful serialisers, loading what save wrote returns exactly the saved state whenever the folder held nothing or an earlier checkpoint of "
+            "the same run; the SQLite table returns the saved row whatever it held; calibrate() with a folder leaves the returned state on disk. A Lean witness shows stale "
+            "series rows when the folder belongs to a different run (known finding); RLScheduler cannot be pickled (known finding). The contracts dec(enc x) = x are "
+            "checked on tens of thousands of floats through the real CSV/JSON/HDF5/SQLite paths, and restored calibrators are compared recursively, bit for bit, with the "
+            "saved ones over scripts of calibrate/checkpoint/restore/new-run (all sampler classes, all losses, zero-batch checkpoints).",
+            "Trusted: Lean kernel; json/pickle/h5py/sqlite3 internals (round trips sampled, not proved); harness/vp/deep.py defines observable state. Partial: different-run folders and RL scheduler are known findings.",
+            "DESIGN.md §4 C04"),
 }
 NOT_YET = {}
 
